@@ -20,6 +20,20 @@ CHECKS = {
         technique="CFG + typestate abstract interpretation (path-sensitive on depleted flag / look-ahead byte), def-use, control dependence",
         design="4/C05",
     ),
+    "C07": dict(
+        category="other",
+        text="Non-interference of the mode flag, decided on source: NI-1 classifies every read of abort_on_error in the "
+             "decode core as a keyword pass-through or a raise-vs-wrap mode test whose strict branch is exactly `raise e` "
+             "with e bound (constructed or caught) on every path; NI-2 every call to a function with the parameter threads "
+             "it unchanged (36 sites); NI-3 on every CFG path from a mode test's false edge the first thing yielded is "
+             "WarningEvent(error=e) with the same e (only the offending primitive's own event may precede it), and no "
+             "WarningEvent is constructed anywhere else. Hence both modes execute the same statements on the same data up "
+             "to the first error object - the property's core, for all inputs.",
+        note="trusted: CPython ast; error objects are truthy; method calls resolved by receiver constructor (over-approximated "
+             "when unknown). Which events are emitted is not decided, only that the two runs coincide.",
+        technique="information-flow / non-interference lint + CFG path search from each mode test",
+        design="4/C07",
+    ),
     "C10": dict(
         category="other",
         text="T1: pump typestate - next(source) is executed only while no unconsumed byte is held, send(byte) only with a "
